@@ -151,14 +151,16 @@ def write_gen(ctx):
 
 
 PREAMBLE = ("From Coq Require Import QArith.\nFrom Typhon Require Import Model.C06_geoindex.\n"
-            "From TyphonGen Require Import C06_units.\nOpen Scope Z_scope.\n")
+            "From TyphonGen Require Import C06_units.\nFrom Coq Require Import Uint63.\nOpen Scope uint63_scope.\n")
+# In the case files plain numerals are primitive 63-bit integers (cheap to read and print); the few exact
+# rationals are written with explicit %Z / %positive.
 
 
 # ----------------------------------------------------------------------------- literals
 
 def qlit(fr):
     fr = Fraction(fr)
-    return f"(Qmake {zlit(fr.numerator)} {fr.denominator}%positive)"
+    return f"(Qmake ({fr.numerator})%Z {fr.denominator}%positive)"
 
 
 def dbl_lit(x):
@@ -382,14 +384,16 @@ def obs_lit(o):
             if not math.isfinite(x):
                 return None
             mant, k = dbl_lit(x)
-            items.append(f"({zlit(t)}, {zlit(mant)}, {k}%N)")
+            if mant < 0 or mant >= 2 ** 62 or t < 0:
+                return None
+            items.append(f"({t}, {mant}, {k})")
         rows.append(coq_list(items))
     return coq_list(rows)
 
 
 def case_expr(case, d_um, obs, R, tbl):
     n, m = len(case["lat"]), len(case["qlat"])
-    mat = coq_list([coq_list([zlit(x) for x in row]) for row in d_um])
+    mat = coq_list([coq_list([str(x) for x in row]) for row in d_um])
     Rq, mt, r = qlit(Fraction(R)), metric_lit(case), radius_lit(case["r"])
     models = []
     for o in obs:
@@ -398,7 +402,10 @@ def case_expr(case, d_um, obs, R, tbl):
             models.append("None")
             continue
         s = o["shuffler"]
-        sh = "None" if s is None else f"(Some {coq_list([zlit(t) for t in s])})"
+        if s is not None and any(t < 0 for t in s):
+            models.append("None")
+            continue
+        sh = "None" if s is None else f"(Some {coq_list([str(t) for t in s])})"
         models.append(f"(Some (eval_model {Rq} {mt} {m} {sh} {lit}))")
     return (f"(eval_spec si_units {Rq} {mt} {r} {n} {m} {mat}, eval_r_tree {tbl} {Rq} {mt} {r}, "
             f"{coq_list(models)})")
@@ -477,8 +484,9 @@ def gen_case(rng, k, nruns, big=None):
     elif style == "single":
         n, m = rng.choice([1, 2, 2, 3, 3, 4, 6]), rng.choice([1, 1, 2, 3])
     else:
+        cap = 12000 if rng.random() < 0.04 else 2500          # entries of the dense matrix evaluated inside Coq
         n, m = rng.choice(SIZES_Q), rng.choice(SIZES_Q)
-        while n * m > 12000:
+        while n * m > cap:
             n, m = rng.choice(SIZES_Q), rng.choice(SIZES_Q)
     metric = rng.choice([None, "minkowski", "haversine", "haversine"])
     pts, qs = [], []
